@@ -2,7 +2,7 @@
 """C18 -- a dirfile being appended to can be read concurrently and consistently.
 
 proof:   Properties_C18.v (nframes_monotone, prefix_consistent, no_partial, never_absent_in_place,
-         never_absent_out_of_place, long_lived_refuted) over C18/Append.v on the filesystem of C12
+         never_absent_out_of_place, long_lived_{fixed,refuted,for_code}) over C18/Append.v on the filesystem of C12
 tie:     harness/C12/shim.c in interactive mode stops the REAL writer (harness/C18/app.c: a foreign
          raw-byte writer with sample-splitting chunks, and the library's gd_putdata/gd_sync/gd_flush
          on unencoded and gzip data) before every system call; at every stop a reader process runs
@@ -63,10 +63,17 @@ def main():
     chk = vlib.Check("C18")
     shimlib.load_staged_findings(chk, "C18")
     rng = chk.rng
-    proved = chk.prove("Properties_C18")
+    rc, tout = vlib.sh("python3 %s/translate/tr_rawread.py" % vlib.VERIF)
+    trans_problems = [l for l in tout.splitlines() if l.startswith("PROBLEM")]
+    proved = chk.prove("Properties_C18", extra_targets=["Gen/RawShape.vo"])
+    try:
+        fx = "read_steps_back : bool := true" in open(os.path.join(vlib.COQ, "Gen", "RawShape.v")).read()
+    except OSError:
+        fx = False
     chk.cov["trusted_base"] += [
         "Coq 8.16.1 kernel; vm_compute for the desynchronisation witness",
         "abstract filesystem coq/C12/Fs.v: write(2) appends in order and is atomic with respect to an observer, rename(2) is atomic",
+        "translate/tr_rawread.py (anchors of _GD_RawRead/_GD_RawSeek/_GD_RawSize; selects the instance read_steps_back=%s)" % fx,
         "coq/C18/Append.v is hand-written from raw.c:60-165 / nframes.c (size rounding, seek short-circuit, read advancing pos by whole samples); tied to the code by the comparison of file sizes, frame counts and greedy-reader positions at every writer stop",
         "harness/C12/shim.c interactive mode, harness/C18/app.c, ocaml/C18/driver.ml (ExtrOcamlBasic extraction)",
     ]
@@ -79,7 +86,7 @@ def main():
         impl = vlib.build_impl()
         exe = vlib.build_harness(impl, os.path.join(vlib.VERIF, "harness/C18/app.c"))
         shim = shimlib.build_shim(impl)
-        ok, log = vlib.coq_make(["C18/Append.vo"])
+        ok, log = vlib.coq_make(["C18/Append.vo", "Gen/RawShape.vo"])
         drv = vlib.build_ocaml_driver("C18", "C18/Extract.v", "ocaml/C18/driver.ml") if ok else None
     except vlib.BuildError as e:
         chk.violation("build", "build failed: " + str(e)[:2000], {"kind": "build", "log": str(e)}, found=False)
@@ -197,7 +204,7 @@ def main():
                 if f[2] == "write":
                     wsz.append(int(f[5]))
             mlines.append("W %d %d %d %s" % (2 * SPF_A, 2 * SPF_A * 2, len(wsz), " ".join(str(x) for x in wsz)))
-            mlines.append("G 2 %d %s" % (len(obs), " ".join(str(max(0, o[4])) for o in obs)))
+            mlines.append("G %d 2 %d %s" % (1 if fx else 0, len(obs), " ".join(str(max(0, o[4])) for o in obs)))
             mown.append((sid, desc, stops, obs))
         if sid < 3:
             chk.sample({"scenario": desc, "stops": len(stops), "nframes_seen_by_fresh_reader": [o[1].get("nf") for o in obs][:40]})
@@ -253,15 +260,18 @@ def main():
         if key in seen:
             continue
         seen.add(key)
-        found_any = True
-        chk.violation(key, desc, rep)
+        if chk.violation(key, desc, rep):
+            found_any = True
     seen = set()
     for key, desc, rep in model_bad:
         if found_any or key in seen:
             continue
         seen.add(key)
         chk.violation(key, "correspondence broken: " + desc, rep, found=False)
-    if not proved and not found_any:
+    if trans_problems and not found_any:
+        chk.violation("translator", "translator cannot recognise _GD_RawRead/_GD_RawSeek/_GD_RawSize: " + "; ".join(trans_problems[:3]),
+                      {"kind": "translator", "problems": trans_problems, "theorem": "raw_shape_recognised"}, found=False)
+    if not proved and not found_any and not trans_problems:
         chk.violation("proof", "Properties_C18 does not check: " + getattr(chk, "proof_log", "")[-1200:],
                       {"kind": "proof", "theorem": "Properties_C18", "log": getattr(chk, "proof_log", "")[-4000:]}, found=False)
     return chk.finish()
